@@ -47,8 +47,12 @@ def cases(tier):
                         for j in js:
                             for clock in (("system",) if (q or fpos > 0) else ("system", "tsc")):
                                 for cycles in ((1, 2) if (fault == "stop" and fpos < 0 and (not q or j in (0, -1))) else (1,)):
-                                    out.append({"fault": fault, "n": n, "k": k, "j": j, "clock": clock, "second": second,
-                                                "cycles": cycles, "tpos": tpos, "fpos": fpos})
+                                    # backend buffering limits: defaults, or one / two statements per queue and pass
+                                    for lim in ((0, 1) if (q or clock == "tsc") else (0, 1, 2)):
+                                        if lim and (second == "none" or cycles == 2):
+                                            continue
+                                        out.append({"fault": fault, "n": n, "k": k, "j": j, "clock": clock, "second": second,
+                                                    "cycles": cycles, "tpos": tpos, "fpos": fpos, "lim": lim})
     return out
 
 
@@ -118,7 +122,7 @@ def run(ctx):
                 "SIGSEGV, SIGABRT, SIGFPE, SIGILL, SIGINT, SIGTERM with the built-in handler} x backend progress at the fault "
                 "(provably stuck in a gated sink after exactly j writes, j = 0..k, or asleep with a one-hour sleep) x clock source "
                 "x second thread {none, finished, alive and parked} logging after the main thread's statement number tpos (so both "
-                "registration orders occur) x optional flusher thread blocked in flush_log() from position fpos on x start/stop cycles {1, 2}; each case is one child process on "
+                "registration orders occur) x optional flusher thread blocked in flush_log() from position fpos on x backend buffering limits {default, 1, 2 statements per queue and pass} x start/stop cycles {1, 2}; each case is one child process on "
                 "the real Backend::start thread, judged from outside by wait status and log file content; "
                 "distinct = distinct (case, outcome) pairs")
     exe = vf.build("crashx_child", SRC, FLAGS)
